@@ -94,6 +94,10 @@ def ref_stage(kind, events, completed):
     raise ValueError(kind)
 
 
+class Halt(BaseException):
+    """Leaves a with-block like KeyboardInterrupt / SystemExit / GeneratorExit would."""
+
+
 class Sim:
     def __init__(self):
         from ptera.probe import Probe
@@ -186,14 +190,15 @@ class Sim:
             handle = self.probe["b1"]
             self.flags.add("derived-handle")
         try:
+            exc_cls = Halt if by_exc == "base" else F.Boom
             if self.how == "values":
                 if by_exc:
-                    self.cm.__exit__(F.Boom, F.Boom("x"), None)
+                    self.cm.__exit__(exc_cls, exc_cls("x"), None)
                 else:
                     self.cm.__exit__(None, None, None)
             elif self.how == "with":
                 if by_exc:
-                    handle.__exit__(F.Boom, F.Boom("x"), None)
+                    handle.__exit__(exc_cls, exc_cls("x"), None)
                 else:
                     handle.__exit__(None, None, None)
             else:
@@ -405,7 +410,7 @@ class Sim:
         stack = getattr(st.fn, "__ptera_stack__", None)
         return (
             id(st.fn.__code__),
-            stack.instrument_count if stack is not None else 0,
+            getattr(stack, "instrument_count", 0) if stack is not None else 0,
             tuple(sorted(id(a) for _, a in HY.handlers_installed())),
             tuple(len(s["sink"]) for s in self.sinks),
         )
@@ -545,7 +550,7 @@ def make_machine(rec):
             self._do(("activate", how))
 
         @precondition(lambda self: self.sim.phase == "active")
-        @rule(by_exc=st.booleans(), via=st.sampled_from(["root", "root", "derived"]))
+        @rule(by_exc=st.sampled_from([False, True, "base"]), via=st.sampled_from(["root", "root", "derived"]))
         def deactivate(self, by_exc, via):
             self._do(("deactivate", by_exc, via))
 
